@@ -77,12 +77,12 @@ def _gen_case(rng, tier):
     return case
 
 
-def sweep_units(tier, root):
+def _sweep_units(tier, root):
     n = 40 if tier == 'quick' else 600
     return [{'seed': (root * 7919 + i * 104729) & 0xffffffff, 'i': i} for i in range(n)]
 
 
-def expand_unit(u):
+def _expand_unit(u):
     rng = random.Random(u['seed'])
     B = rng.choice([3, 4, 5, 7, 8, 16, 64])
     st = gc.gen_structure(rng, B, max_payload=60, max_chunks=4, adv_bytes=gen_bytes)
@@ -342,3 +342,26 @@ def summarise(case):
 
 def setup_worker():
     _twin.warm(_gen_case, _run_case)
+
+
+TWIN_SWEEPS = {'quick': 10, 'thorough': 200}
+
+
+def sweep_units(tier, root):
+    units = _sweep_units(tier, root)
+    # exhaustive single pre-emption over small cases: one unit = one case x every traced step of its solo run
+    units += [{'twin_sweep': i, 'seed': (root * 2654435761 + i * 40503) & 0xffffffff} for i in range(TWIN_SWEEPS[tier])]
+    return units
+
+
+def expand_unit(u):
+    if 'twin_sweep' not in u:
+        yield from _expand_unit(u)
+        return
+    import random as _random
+    rng = _random.Random(u['seed'])
+    for _ in range(50):
+        inner = _gen_case(rng, 'quick')
+        if len(repr(inner)) < 1500:
+            break
+    yield from _twin.sweep(lambda c, i: _run_case(c), inner)
